@@ -2,7 +2,7 @@
    present / verifies are pysaml2's own view: item.signature after parsing, and the
    outcome of SecurityContext._check_signature for that element (C01/C03/C20 say
    what a positive outcome means). *)
-From PV Require Import Lib.Base Model.Status Model.Response Proofs.Response_lemmas Proofs.Rel_lemmas Proofs.C02_lemmas.
+From PV Require Import Lib.Base Model.Status Model.Response Model.Client Proofs.Response_lemmas Proofs.Rel_lemmas Proofs.C02_lemmas Proofs.Client_lemmas.
 Open Scope Z_scope.
 
 (* For EVERY configuration, clock, content and signature state:
@@ -70,3 +70,130 @@ Definition table_ok : bool :=
 Example C02_table : table_ok = true.
 Proof. vm_compute. reflexivity. Qed.
 Print Assumptions C02_table.
+
+(* ================= where the options come from: every configuration class, every section ================= *)
+(* the client reads the three options from the sp section of the dictionary — explicit value, else the
+   default (want_response_signed: true, the others: false) — whatever the configuration class
+   (SPConfig: def_context sp; the generic Config: def_context empty; ...) and whatever other roles
+   the same configuration serves *)
+Theorem C02_options_from_sp_section :
+  forall def_context service,
+    client_opts def_context service =
+    {| o_wrs := opt_value (find_section (E "sp") service) WRS true;
+       o_was := opt_value (find_section (E "sp") service) WAS false;
+       o_waors := opt_value (find_section (E "sp") service) WAORS false |}.
+Proof. exact client_opts_spec. Qed.
+Print Assumptions C02_options_from_sp_section.
+
+Theorem C02_config_class_irrelevant :
+  forall dc dc' service, client_opts dc service = client_opts dc' service.
+Proof. exact config_class_irrelevant. Qed.
+Print Assumptions C02_config_class_irrelevant.
+
+Theorem C02_other_sections_irrelevant :
+  forall dc service service',
+    find_section (E "sp") service = find_section (E "sp") service' -> client_opts dc service = client_opts dc service'.
+Proof. exact other_sections_irrelevant. Qed.
+Print Assumptions C02_other_sections_irrelevant.
+
+(* what opt_value means: absent (no section / not in the section / None) -> default; a boolean or the strings true / false -> that value *)
+Theorem C02_option_meaning :
+  forall name d,
+    opt_value None name d = d /\
+    (forall s, assigned name s = None -> opt_value (Some s) name d = d) /\
+    (forall s, assigned name s = Some CNone -> opt_value (Some s) name d = d) /\
+    (forall s b, assigned name s = Some (CBool b) -> opt_value (Some s) name d = b) /\
+    (forall s, assigned name s = Some (CStr (E "true")) -> opt_value (Some s) name d = true) /\
+    (forall s, assigned name s = Some (CStr (E "false")) -> opt_value (Some s) name d = false).
+Proof.
+  intros name d. repeat split; intros; unfold opt_value; try rewrite H; try reflexivity.
+Qed.
+Print Assumptions C02_option_meaning.
+
+Definition documented_opts (o : opts) (r : response) : bool :=
+  sigok (r_sig r) && all_sigok r &&
+  implb (o_wrs o) (present (r_sig r)) && implb (o_was o) (all_present r) &&
+  implb (o_waors o) (present (r_sig r) || all_present r).
+
+(* the documented iff for a client built from ANY configuration class and dictionary *)
+Theorem C02_client_accept_iff :
+  forall dc service c r,
+    let o := client_opts dc service in
+    is_ok (parse_on (new_client dc service) c r) = otherwise_valid (with_opts o c) r && documented_opts o r.
+Proof. intros dc service c r o. unfold parse_on. cbn [new_client cl_opts]. fold o. now rewrite accept_iff. Qed.
+Print Assumptions C02_client_accept_iff.
+
+(* ================= histories on one long-lived client / one shared SecurityContext ================= *)
+(* the verdict of a step depends only on that step's message (and call context) and on the options in force
+   (the last SetOpts before it, else the configured ones) — for EVERY prefix of earlier operations, every
+   client state (cached subjects, identifiers and signature values seen before) and every continuation *)
+Theorem C02_history :
+  forall cl pre w c r post,
+    nth_error (run_ops cl (pre ++ Parse w c r :: post)) (parses pre) =
+    Some (parse_response (with_opts (opts_after (cl_opts cl) pre) c) r).
+Proof. exact history_step. Qed.
+Print Assumptions C02_history.
+
+Theorem C02_history_state_irrelevant :
+  forall cl cl' ops, cl_opts cl = cl_opts cl' -> run_ops cl ops = run_ops cl' ops.
+Proof. exact history_state_irrelevant. Qed.
+Print Assumptions C02_history_state_irrelevant.
+
+(* ... hence the documented iff holds at every step of every history *)
+Theorem C02_history_accept_iff :
+  forall cl pre w c r post,
+    let o := opts_after (cl_opts cl) pre in
+    exists v, nth_error (run_ops cl (pre ++ Parse w c r :: post)) (parses pre) = Some v /\
+              is_ok v = otherwise_valid (with_opts o c) r && documented_opts o r.
+Proof. intros cl pre w c r post o. eexists. split; [apply history_step|]. fold o. now rewrite accept_iff. Qed.
+Print Assumptions C02_history_accept_iff.
+
+(* a message with a present-but-invalid signature is refused at every point of every history — in particular
+   right after a genuine message with the same identifiers and the same signature values was accepted *)
+Theorem C02_history_invalid_never_accepted :
+  forall cl pre w c r post,
+    (sigok (r_sig r) = false \/ exists a, In a (processed r) /\ sigok (a_sig a) = false) ->
+    exists v, nth_error (run_ops cl (pre ++ Parse w c r :: post)) (parses pre) = Some v /\ is_ok v = false.
+Proof. intros cl pre w c r post H. eexists. split; [apply history_step|]. now apply C02_invalid_never_ignored. Qed.
+Print Assumptions C02_history_invalid_never_accepted.
+
+Theorem C02_history_no_compensation :
+  forall cl pre w c r post,
+    let o := opts_after (cl_opts cl) pre in
+    (o_wrs o = true /\ present (r_sig r) = false) \/ (o_was o = true /\ all_present r = false) ->
+    exists v, nth_error (run_ops cl (pre ++ Parse w c r :: post)) (parses pre) = Some v /\ is_ok v = false.
+Proof. intros cl pre w c r post o H. eexists. split; [apply history_step|]. apply C02_no_compensation. exact H. Qed.
+Print Assumptions C02_history_no_compensation.
+
+(* non-vacuity: both configuration classes x each option absent / false / true (27) x {none, response, assertion, both}
+   signed x {plain, encrypted}: [genuine; tampered copy, same identifiers and signature values; genuine;
+   options flipped; the same three again] evaluates to [rule; refused-if-signed; rule; ...] *)
+Definition raws : list (option cv) := [None; Some (CBool false); Some (CBool true)].
+Definition secS (x1 x2 x3 : option cv) : section :=
+  (match x1 with Some v => [(WRS, v)] | None => [] end) ++ (match x2 with Some v => [(WAS, v)] | None => [] end) ++
+  (match x3 with Some v => [(WAORS, v)] | None => [] end).
+Definition val_of (x : option cv) (d : bool) : bool := match x with Some (CBool b) => b | _ => d end.
+Definition tamper (s : option (result unit)) : option (result unit) :=
+  match s with None => None | Some _ => Some (Err SignatureError) end.
+Definition rule (b1 b2 b3 : bool) (rsg asg : option (result unit)) : bool :=
+  sigok rsg && sigok asg && implb b1 (present rsg) && implb b2 (present asg) && implb b3 (present rsg || present asg).
+Definition wireS := {| w_rid := s2l "r-1"; w_sigvals := [11%N; 12%N] |}.
+Definition signed_states : list (option (result unit)) := [None; Some (Ok tt)].
+Definition history_table_ok : bool :=
+  forallb (fun dc => forallb (fun x1 => forallb (fun x2 => forallb (fun x3 => forallb (fun rsg => forallb (fun asg => forallb (fun enc =>
+    let service := [(E "idp", [(WRS, CBool (negb (val_of x1 true)))]); (E "sp", secS x1 x2 x3)] in
+    let b1 := val_of x1 true in let b2 := val_of x2 false in let b3 := val_of x3 false in
+    let c := cfgS false false false in
+    let g := respS rsg asg enc in let t := respS (tamper rsg) (tamper asg) enc in
+    let ops := [Parse wireS c g; Parse wireS c t; Parse wireS c g;
+                SetOpts {| o_wrs := negb b1; o_was := negb b2; o_waors := negb b3 |};
+                Parse wireS c g; Parse wireS c t; Parse wireS c g] in
+    let want := [rule b1 b2 b3 rsg asg; rule b1 b2 b3 (tamper rsg) (tamper asg); rule b1 b2 b3 rsg asg;
+                 rule (negb b1) (negb b2) (negb b3) rsg asg; rule (negb b1) (negb b2) (negb b3) (tamper rsg) (tamper asg);
+                 rule (negb b1) (negb b2) (negb b3) rsg asg] in
+    (fix eqbl (l1 l2 : list bool) := match l1, l2 with [], [] => true | x :: l1', y :: l2' => Bool.eqb x y && eqbl l1' l2' | _, _ => false end)
+      (map is_ok (run_ops (new_client dc service) ops)) want)
+    bools) signed_states) signed_states) raws) raws) raws) [E "sp"; E ""; E "idp"].
+Example C02_history_table : history_table_ok = true.
+Proof. vm_compute. reflexivity. Qed.
+Print Assumptions C02_history_table.
